@@ -21,6 +21,7 @@ type stackInfo struct {
 	innermostUser string // first frame that is not runtime/stdlib
 	innermostRes  string // first reservoir frame
 	harnessFirst  bool
+	callback      bool
 }
 
 func classifyStack(lines []string) stackInfo {
@@ -40,6 +41,13 @@ func classifyStack(lines []string) stackInfo {
 			si.innermostUser = fn
 			si.harnessFirst = isHarness
 		}
+		if isRes && si.harnessFirst && si.innermostRes == "" {
+			// harness code running as a callback that reservoir invoked (e.g. the modifier passed to
+			// UpdateMetadata): the access is made on reservoir's behalf and under reservoir's locking
+			// discipline, so it is attributed to the calling reservoir frame and judged
+			si.harnessFirst = false
+			si.callback = true
+		}
 		if isRes && si.innermostRes == "" {
 			file := loc
 			if k := strings.LastIndex(file, ":"); k > 0 {
@@ -49,6 +57,9 @@ func classifyStack(lines []string) stackInfo {
 				file = file[k+1:]
 			}
 			si.innermostRes = NormFunc(fn) + "@" + file
+			if si.callback {
+				si.innermostRes += "(callback)"
+			}
 		}
 	}
 	return si
